@@ -228,7 +228,9 @@ def r_call(call, style, root_ctx, chain):
             pk = path[1]
             if kids and kids[-1] is pk:
                 kids = kids[:-1]
-                tail = r_call(pk, style, root_ctx, chain=style.get("chain_all", True))
+                # what stands after `>` is in focus position (root-like context), also inside an
+                # argument list: `h(f > g() as r)` puts the focus on r
+                tail = r_call(pk, style, True, chain=style.get("chain_all", True))
                 if style.get("group_tail"):
                     tail = [("o", "(")] + tail + [("o", ")")]
     if tail is None and caps and style.get("ret_sugar"):
@@ -289,6 +291,7 @@ STYLES = [
     {"name": "paren-grouped-items", "group_items": True},  # f((a), (g((b))))
     {"name": "chain-grouped-items", "chain": True, "chain_all": True, "group_items": True},
     {"name": "paren-grouped-prefix", "group_prefix": True},  # f((a, b), c)
+    {"name": "inner-chain-ret", "inner_chain": True, "chain_all": True, "ret_sugar": True},  # h(a, f > g() as r)
 ]
 
 
